@@ -324,6 +324,49 @@ def c02stop(binary, out, signames):
     json.dump(res, open(out, "w"))
 
 
+def phcnames(binary, out, names):
+    """The release binary with --phc-ref-id NAME --phc-interface eth0 in a private /sys, chronyd reporting
+    the 4-character reference id NAME (packed ASCII). Two runs per name: the PHC error-bound attribute
+    reads 5000000; the attribute is absent."""
+    subprocess.run("mount -t tmpfs tmpfs /sys && mkdir -p /sys/class/net/eth0/device /sys/bus/pci/devices/0000:00:05.0 && echo PCI_SLOT_NAME=0000:00:05.0 > /sys/class/net/eth0/device/uevent", shell=True, check=True)
+    attr = "/sys/bus/pci/devices/0000:00:05.0/phc_error_bound"
+    res = []
+    for name in names:
+        for present in (True, False):
+            try:
+                os.unlink(SHM)
+            except OSError:
+                pass
+            if present:
+                with open(attr, "w") as f:
+                    f.write("5000000\n")
+            else:
+                try:
+                    os.unlink(attr)
+                except OSError:
+                    pass
+            ref = struct.unpack(">I", name.encode("ascii"))[0]
+            chronyd = FakeChronyd("answer", ref_id=ref)
+            chronyd.start()
+            p = subprocess.Popen([binary, "--phc-ref-id", name, "--phc-interface", "eth0"], stdout=subprocess.DEVNULL, stderr=subprocess.PIPE)
+            t0 = time.monotonic()
+            seen = {}
+            while time.monotonic() - t0 < 3.2:
+                seg = read_segment()
+                if seg and time.monotonic() - t0 > 1.3:
+                    st, = struct.unpack_from("=i", seg, 64)
+                    b, = struct.unpack_from("=q", seg, 48)
+                    seen[(st, b)] = seen.get((st, b), 0) + 1
+                time.sleep(0.02)
+            rc = p.poll()
+            kill(p)
+            chronyd.stop = True
+            chronyd.set_mode("absent")
+            err = p.stderr.read().decode(errors="replace")[-300:]
+            res.append({"name": name, "attribute_present": present, "exit_code": rc, "chronyd_requests": chronyd.requests, "records_seen": [[k[0], k[1], v] for k, v in seen.items()], "stderr_tail": err if not seen else ""})
+    json.dump(res, open(out, "w"))
+
+
 def run_plan(binary, plan):
     """plan: {site, hit, action, chronyd, env?, args?, natural?}. Returns an observation dict."""
     for f in (SHM,):
@@ -512,6 +555,8 @@ if __name__ == "__main__":
     mode = sys.argv[1]
     if mode == "c19":
         c19(sys.argv[2], sys.argv[3], sys.argv[4:])
+    elif mode == "phcnames":
+        phcnames(sys.argv[2], sys.argv[3], sys.argv[4:])
     elif mode == "c02stop":
         c02stop(sys.argv[2], sys.argv[3], sys.argv[4:])
     elif mode == "c15":
